@@ -174,6 +174,8 @@ let () =
     | id :: "A" :: "lzw" :: [sz] ->
       let t = int_of_z Charge.lzw_table_bytes and n = int_of_string sz in
       Printf.printf "%s %s\n" id (string_of_bool (t <= n && n <= t + 512))
+    | id :: "B2" :: [n] ->
+      Printf.printf "%s %s\n" id (zs (Gen_C08dct.jbig2_workLimit (z_of_string n)))
     | id :: "W" :: [sc] ->
       let scans = Stdlib.List.map (fun e -> match Stdlib.String.split_on_char ':' e with
         | [a; b] -> (z_of_string a, z_of_string b) | _ -> failwith "bad scan") (split_list sc) in
